@@ -115,7 +115,7 @@ static void one(Case& cs) {
 
 // ---------------------------------------------------------------------------------------------------------------- level 1 + gemv
 #if C13_G == 1
-static long ncases() { return 5L * 4 * 4 + 4L * 4 * 4 * 4 * 4 * 3 * 2; }
+static long ncases() { return 5L * 4 * 4 + 4L * 4 * 4 * 4 * 4 * 3 * 2 * (CPLX ? 3 : 1); }
 static void one(Case& cs) {
 	L k = cs.k; auto take = [&](L n) { L r = k % n; k /= n; return r; };
 	if(cs.k < 5L * 4 * 4) {  // level 1: n in 0..4, x kind, y kind; all operations on the same operands
@@ -147,20 +147,23 @@ static void one(Case& cs) {
 		return;
 	}
 	k -= 5L * 4 * 4;  // gemv: y = alpha*A*x + beta*y
-	int const ka = int(take(4)), kx = int(take(4)), ky = int(take(4)); L const m = take(4), n = take(4); int const sc = int(take(3)), form = int(take(2));
+	int const ka = int(take(4)), kx = int(take(4)), ky = int(take(4)); L const m = take(4), n = take(4); int const sc = int(take(3)), form = int(take(2)); int const opa = CPLX ? int(take(3)) : 0;  // 0 plain, 1 J(A) (conjugated), 2 H(A) (hermitian: the stored operand is n x m)
+	static char const* OPA[] = {"", "J", "H"};
 	static T const AL[] = {T(R(1)), T(R(2)), T(R(-1))}; static T const BE[] = {T(R(0)), T(R(1)), T(R(2))}; T const alpha = AL[sc], beta = form == 0 ? BE[sc] : T(R(0));
-	Buf<T> RA, RX, RY; auto&& A = mkm(RA, ka, m, n, POISON); auto&& x = mkv(RX, kx, n, POISON); auto&& y = mkv(RY, ky, m, OUTFILL);
-	for(L i = 0; i < m; ++i) for(L j = 0; j < n; ++j) A[i][j] = val(i, j, 1); for(L j = 0; j < n; ++j) x[j] = val(j, 0, 2); for(L i = 0; i < m; ++i) y[i] = val(i, 1, 3);
-	std::vector<T> ref(static_cast<std::size_t>(m), T{}); for(L i = 0; i < m; ++i) { T s{}; for(L j = 0; j < n; ++j) s += T(A[i][j]) * T(x[j]); ref[std::size_t(i)] = alpha * s + beta * T(y[i]); }
-	auto sa = RA.s, sx = RX.s; std::string const lay = std::string(MK[ka]) + "*" + VK_[kx] + "->" + VK_[ky]; std::string const szs = szc(m) + szc(n);
-	std::string const key = std::string("C13:gemv:") + TN + ":" + ((n == 0) ? std::string("n0") : std::string(MK[ka]) + ":" + szs);
+	Buf<T> RA, RX, RY; auto&& A = (opa == 2) ? mkm(RA, ka, n, m, POISON) : mkm(RA, ka, m, n, POISON); auto&& x = mkv(RX, kx, n, POISON); auto&& y = mkv(RY, ky, m, OUTFILL);
+	auto la = [&](L i, L j) -> T { return opa == 0 ? T(A[i][j]) : (opa == 1 ? conj_(T(A[i][j])) : conj_(T(A[j][i]))); };  // logical m x n operand
+	for(L i = 0; i < (opa == 2 ? n : m); ++i) for(L j = 0; j < (opa == 2 ? m : n); ++j) A[i][j] = val(i, j, 1); for(L j = 0; j < n; ++j) x[j] = val(j, 0, 2); for(L i = 0; i < m; ++i) y[i] = val(i, 1, 3);
+	std::vector<T> ref(static_cast<std::size_t>(m), T{}); for(L i = 0; i < m; ++i) { T s{}; for(L j = 0; j < n; ++j) s += la(i, j) * T(x[j]); ref[std::size_t(i)] = alpha * s + beta * T(y[i]); }
+	auto sa = RA.s, sx = RX.s; std::string const lay = std::string(OPA[opa]) + MK[ka] + "*" + VK_[kx] + "->" + VK_[ky]; std::string const szs = szc(m) + szc(n);
+	std::string const key = std::string("C13:gemv:") + TN + ":" + ((n == 0) ? std::string("n0") : std::string(OPA[opa]) + MK[ka] + ":" + szs);
 	describe(std::string("gemv ") + TN + " " + lay + " m,n=" + std::to_string(m) + "," + std::to_string(n) + " form=" + std::to_string(form) + " beta=" + std::to_string(std::real(beta))); sig_mix(lay.c_str()); sig_mix(szs.c_str()); sig_mix(std::uint64_t(form * 4 + sc)); nontrivial(m * n > 0);
-	op((std::string("gemv:") + TN + ":" + MK[ka] + ":" + szs).c_str());
-	Outcome o = classify([&] { if(form == 0) blas::gemv(alpha, A, x, beta, y); else y = blas::gemv(alpha, A, x); }, [&]() -> Outcome {
+	op((std::string("gemv:") + TN + ":" + OPA[opa] + MK[ka] + ":" + szs).c_str());
+	Outcome o = classify([&] { if constexpr(CPLX) { if(opa == 1) { if(form == 0) blas::gemv(alpha, blas::J(A), x, beta, y); else y = blas::gemv(alpha, blas::J(A), x); return; } if(opa == 2) { if(form == 0) blas::gemv(alpha, blas::H(A), x, beta, y); else y = blas::gemv(alpha, blas::H(A), x); return; } }
+		if(form == 0) blas::gemv(alpha, A, x, beta, y); else y = blas::gemv(alpha, A, x); }, [&]() -> Outcome {
 		bool ok = true; for(L i = 0; i < m; ++i) ok &= eq(y[i], ref[std::size_t(i)]); for(L i = 0; i < m; ++i) y[i] = OUTFILL; long stray = 0; for(auto const& e : RY.s) stray += !(e == OUTFILL);
 		if(stray) return {"oob-write", "elements outside y were written"}; if(!(RA.s == sa) || !(RX.s == sx)) return {"input-modified", "an input was modified"};
 		if(!ok) return {(n == 0 && !eq(beta, T(R(1)))) ? "n0-beta-not-applied" : "wrong", "gemv result differs from alpha*A*x + beta*y, m,n=" + std::to_string(m) + "," + std::to_string(n)}; return {"ok", ""}; });
-	report(key, o);
+	count(std::string("gemv:op") + OPA[opa] + ":" + o.sym); report(key, o);
 }
 #endif
 
